@@ -553,7 +553,7 @@ def oracle(req, out):
     src = unhex(ws[1]).decode("utf-8")
     text = rendered_text(out)
     # second opinion: CPython must read the rendering as the same tree as the source — or, where this parser
-    # and CPython already disagree about the SOURCE (C01's business, e.g. `U''`, lone surrogates, `x[*a]`),
+    # and CPython already disagree about the SOURCE (C01's business, e.g. `U''`, lone surrogates),
     # as the tree this parser had.
     a = py_dump(src)
     tb = py_tree(text) if a is not None and text is not None else None
